@@ -28,7 +28,8 @@ ASSUMPTIONS = ["html5ever's Node::parent / children describe the parsed document
 CONFIGS_QUICK = ["css"]
 CONFIGS_THOROUGH = ["css", "css_ext"]
 
-REST = r"&<impl std::ops::Index<I> for \[T\]>::index\(&arg1, ops::RangeFrom\{1_usize\}\)"
+REST = (r"(&<impl std::ops::Index<I> for \[T\]>::index\(&arg1, ops::RangeFrom\{1_usize\}\)"
+        r"|&?\(<impl \[T\]>::split_first\(&arg1\) as Some\)\.1)")
 SAME = ("Class", "Hash", "Element", "Star", "NthChild")
 
 
@@ -176,7 +177,7 @@ def rule_a(ctx):
         if b.term(a)["k"] != "switch" or not b.dominates(a, disp):
             continue
         neg, src = b.switch_source(a)
-        if src[0] == "discr" and norm(b.canon(src[1])).endswith("first(&arg1)"):
+        if src[0] == "discr" and norm(b.canon(src[1])).endswith(("first(&arg1)", "split_first(&arg1)")):
             for v, tb in b.term(a)["targets"]:
                 if v == 0:
                     reg = b.reach_from(tb, avoid=[a])
